@@ -26,11 +26,17 @@ def gen_pkgs_own(rng, n_matryer, n_testify):
         pkgs.append(pkg)
     for i in range(n_testify):
         pkg = c04.gen_pkg(rng, n_matryer + i, {"skip-ensure": True, "stub-impl": False, "with-resets": False})
-        pkg["template"], pkg["opts"], pkg["structpat"] = "testify", {}, "Mock%s"
+        unroll = i % 2 == 0                      # both unroll-variadic settings
+        pkg["template"], pkg["opts"], pkg["structpat"] = "testify", {"unroll-variadic": unroll}, "Mock%s"
         for it in pkg["ifaces"]:
+            if i < 2 and not any(m["variadic"] and m["results"] for m in it["methods"]):
+                # make sure typed Run handlers of variadic methods are exercised in every run
+                it["methods"].append(c04.gen_variadic_method(rng, "Logf"))
             # outside C05 (findings of C01/C03): variadic methods with >= 2 results do not compile; func-typed
             # results are taken for providers by the wrapper
+            # ... and with unroll-variadic a variadic method WITHOUT results does not compile either (pre-existing)
             it["methods"] = [m for m in it["methods"] if not (m["variadic"] and len(m["results"]) >= 2)
+                             and not (m["variadic"] and unroll and not m["results"])
                              and not any(r["type"].startswith("func") for r in m["results"])]
         pkg["ifaces"] = [it for it in pkg["ifaces"] if it["methods"]]
         if pkg["ifaces"]:
@@ -156,7 +162,8 @@ def jobs_for(pkgs, rng, thorough):
         for it in pkg["ifaces"]:
             jobs.append({"mock": c04.mock_key(pkg, it), "kind": pkg.get("template", "matryer"), "goroutines": 12 if thorough else 8,
                          "calls": 600 if thorough else 200, "readers": 3, "seed": rng.randint(0, 999),
-                         "stub": bool(pkg["opts"].get("stub-impl")) and rng.random() < 0.5})
+                         "stub": bool(pkg["opts"].get("stub-impl")) and rng.random() < 0.5,
+                         "unroll": bool(pkg["opts"].get("unroll-variadic"))})
     return jobs
 
 
@@ -244,7 +251,10 @@ def check(ctx, only=None):
                               "stress": {"mocks": len(results), "calls": total_calls, "records_checked": sum(r["records"] for r in results),
                                          "snapshots": sum(r["snapshots"] for r in results), "concurrent_resets": sum(r["resets"] for r in results),
                                          "matryer": len([j for j in jobs if j["kind"] == "matryer"]), "testify": len([j for j in jobs if j["kind"] == "testify"]),
-                                         "stub_nil_funcs": len([j for j in jobs if j["stub"]])},
+                                         "stub_nil_funcs": len([j for j in jobs if j["stub"]]),
+                                         "testify_typed_handlers": sum(r.get("typed_handlers", 0) for r in results),
+                                         "testify_typed_handlers_skipped_sequentially_broken": sorted(x for r in results for x in r.get("typed_skipped") or [])[:40],
+                                         "testify_unroll_variadic_jobs": len([j for j in jobs if j["kind"] == "testify" and j["unroll"]])},
                               "input_histogram": {"options": {",".join(k for k, v in sorted(pk["opts"].items()) if v) or "none": 1 for pk in pkgs},
                                                   "templates": {t: len([pk for pk in pkgs if pk.get("template") == t]) for t in ("matryer", "testify")},
                                                   "methods": sum(len(it["methods"]) for pk in pkgs for it in pk["ifaces"]),
